@@ -22,8 +22,13 @@ class CaseTimeout(BaseException):
     inside the code under test cannot swallow it."""
 
 
+class ProbeAbort(BaseException):
+    """raised by an in-situ progress monitor to break an endless loop"""
+
+
 class Ctx:
     def __init__(self):
+        self.probes_light = False
         self.counters = {}
         self.sets = {}
         self.probe_violations = []   # filled by in-situ monitors
